@@ -1,42 +1,73 @@
 """Configuration of ./check for C18 (see tools/props.py)."""
-ENTRY = {'coq_dir': 'C18',
- 'harness': 'c18',
- 'cases': {'quick': 15000, 'thorough': 400000},
- 'consts': ['MAX_INLINE_KEY_LENGTH', 'MULTIHASH_IDENTITY_CODE', 'PEER_ID_MULTIHASH_SIZE'],
- 'nontrivial_min_trace': 4,
- 'rule': 'seeded inputs of five kinds, each run through litep2p, the extracted Coq model and libp2p-identity 0.2.14 (three-way): (1) byte '
-         'strings built around multihashes of codes {0x00,0x11,0x12,0x13,0x16,0xb220,random u64} x digest lengths 0-70 with '
-         'declared!=actual lengths, zero-padded / over-long / overflowing / cut varints, trailing and missing bytes, and random strings -> '
-         "PeerId::from_bytes; (2) their base58 texts with invalid characters, extra leading/trailing '1', substitutions -> "
-         'PeerId::from_str; (3) binary /p2p multiaddress components with the same varint styles on the protocol id and length -> '
-         'Multiaddr::try_from + try_from_multiaddr; (4) protobuf key blobs of 0-100 bytes from a protobuf-aware mutator (field order, '
-         'repeated and unknown fields of every wire type, non-minimal varints, key types 0-4 and out of range, wrong lengths, bit flips, '
-         "truncation, random) -> from_public_key_protobuf, RemotePublicKey::from_protobuf_encoding + to_peer_id versus the reference's "
-         'try_decode_protobuf + to_peer_id; (5) random Ed25519 keypairs with canonical or mutated encodings pushed through the real Noise '
-         'identity check with a valid signature. Every accepted id is rendered to bytes, base58 and a /p2p component (compared with the '
-         'model) and converted back through nine paths (from_bytes, from_str/Display, Protocol::P2p via the infallible From, binary '
-         'multiaddr, textual multiaddr, serde_json, binary serde, TryFrom<Vec<u8>>, Multihash/multiaddr::PeerId); result class (value / '
-         'reject / PANIC) is compared; a case is non-trivial when its trace has >= 4 numbers',
- 'trusted_base': ["SHA-256 is not modelled: the digest of a key blob is supplied by the harness (sha2 crate) and compared with litep2p's "
-                  'multihash-codetable digest',
-                  'the prost protobuf decoder and the curve25519 point check are not modelled: for key blobs the accept bit and decoded '
-                  'key are an oracle taken from RemotePublicKey::from_protobuf_encoding; only the canonical form 08 01 12 20 || key is '
-                  'decided by the model; agreement of the accept bit with the reference decoder is checked differentially',
-                  'the reference is libp2p-identity 0.2.14 as linked into the harness (multiaddr::PeerId is the same type); its admission '
-                  'rule is also transcribed as ref_admits',
-                  'multihash 0.19.5, unsigned-varint 0.8.0, bs58 0.5.1, multiaddr 0.18.2 are modelled from their source as read; their '
-                  'versions are pinned by Cargo.lock'],
- 'level_text': 'Proof: for the executable model of PeerId (multihash bytes = varint code, varint length, digest with the Multihash<64> '
-               'limit and the unsigned-varint minimal/overflow/truncation rules; admission; derivation from a key encoding; bs58; the '
-               'binary /p2p component) it is proved that id -> bytes/text/component -> id is the identity on every valid id, that every '
-               'parser and constructor yields valid ids (the invariant behind the infallible conversion to multiaddr::PeerId), that '
-               "litep2p's admission predicate equals the reference's, that Ed25519 ids are the identity multihash of 08 01 12 20 || key "
-               'and are injective in the key, that base58 is a bijection, and that accepted inputs are canonical unless a varint uses its '
-               '10th byte (a refuted full statement with witness is kept). The model is tied to the Rust code by a three-way differential '
-               'run.',
- 'level_note': 'Trusted: Coq kernel, ExtrOcamlBasic extraction, harness and hooks; SHA-256, prost and the curve check enter as oracles; '
-               'agreement with the reference implementation is differential testing plus a transcribed admission rule, not a proof about '
-               "the reference's code. serde and the textual multiaddr are exercised by the harness only (not modelled). The "
-               'TLS-certificate caller of the same derivation is not exercised.',
- 'assumptions': ['bytes are below 256 and texts are ASCII (other inputs are rejected by model and code alike)',
-                 'the `rsa` cargo feature is off in the harness build (RSA keys keep the received-bytes derivation)']}
+ENTRY = {
+    'coq_dir': 'C18',
+    'harness': 'c18',
+    'cases': {'quick': 15000, 'thorough': 400000},
+    'consts': ['MAX_INLINE_KEY_LENGTH', 'MULTIHASH_IDENTITY_CODE', 'PEER_ID_MULTIHASH_SIZE', 'PEER_ID_SITES'],
+    'nontrivial_min_trace': 4,
+    # second build of the harness with the cargo features under which the TLS certificate parser (QUIC) and RSA
+    # identity keys exist; thorough tier only (the build alone takes minutes)
+    'aux_stream': {'tiers': ['thorough'], 'features': 'quic,rsa', 'target_dir': 'target-quic', 'args': '--aux 1',
+                   'cases': {'thorough': 15000}, 'corpus': 'corpus/C18-aux'},
+    'rule': 'seeded inputs of eight kinds, each run through litep2p, the extracted Coq model and libp2p-identity 0.2.14 (three-way): '
+            '(1) byte strings built around multihashes of codes {0x00,0x11,0x12,0x13,0x16,0xb220,random u64} x digest lengths 0-70 with '
+            'declared!=actual lengths, zero-padded / over-long / overflowing / cut varints, trailing and missing bytes, and random strings -> '
+            'PeerId::from_bytes, and on the same input TryFrom<Vec<u8>>, binary Deserialize, Multihash::from_bytes + TryFrom<Multihash> / '
+            "from_multihash (all must agree); (2) their base58 texts with invalid characters, extra leading/trailing '1', substitutions -> "
+            'PeerId::from_str, and on the same input str::parse, human-readable Deserialize, serde_json, /p2p/<text> and /ipfs/<text> '
+            '(all must agree); (3) binary /p2p multiaddress components with the same varint styles on the protocol id and length -> '
+            'Multiaddr::try_from + try_from_multiaddr; (4) protobuf key blobs of 0-100 bytes from a protobuf-aware mutator (field order, '
+            'repeated and unknown fields of every wire type, non-minimal varints, key types 0-4 and out of range, wrong lengths, bit flips, '
+            "truncation, random) -> from_public_key_protobuf, RemotePublicKey::from_protobuf_encoding + to_peer_id versus the reference's "
+            'try_decode_protobuf + to_peer_id; (5) random Ed25519 keypairs with canonical or mutated encodings pushed through the real Noise '
+            'identity check with a valid signature, plus from_public_key / From / to_peer_id / is_public_key on the key; (6) textual '
+            'multiaddresses made of p2p, ipfs (legacy alias) and p2p-circuit components with malformed variants -> Multiaddr::from_str + '
+            'try_from_multiaddr; (7) pairs of ids (equal, one byte apart, same digest under the other code, one digest a prefix of the '
+            'other) -> PartialEq, Ord/PartialOrd in both directions, Hash, against equality and lexicographic order of to_bytes and equality '
+            'of to_base58; (8) PeerId::random draws. Every accepted id is rendered to bytes, base58 and a /p2p component (compared with the '
+            'model) and converted back through nine paths (from_bytes, from_str/Display, Protocol::P2p via the infallible From, binary '
+            'multiaddr, textual multiaddr, serde_json, binary serde both ways, TryFrom<Vec<u8>>/From<PeerId> for Vec<u8>, '
+            'Multihash/multiaddr::PeerId); result class (value / reject / PANIC) is compared. Thorough tier, second stream (harness rebuilt '
+            'with --features quic,rsa): (9) the same keypair cases through a TLS certificate whose libp2p extension carries the (mutated) '
+            'encoding, parsed and verified by crypto::tls::certificate::parse as QUIC does; (10) rust-libp2p\'s RSA test keys (2048/3072/4096) '
+            'with mutated protobuf framing / DER through from_protobuf_encoding + to_peer_id, the Noise identity check and the TLS '
+            'certificate, with real RSA signatures. A case is non-trivial when its trace has >= 4 numbers',
+    'trusted_base': ["SHA-256 is not modelled: digests are supplied by the harness (sha2 crate) and compared with litep2p's "
+                     'multihash-codetable digest; theorems quantify over every hash function',
+                     'the prost protobuf decoder, the curve25519 point check and the X.509 parser are not modelled: for key blobs the accept '
+                     'bit and decoded key are an oracle taken from RemotePublicKey::from_protobuf_encoding (a parameter `dec` in the '
+                     'theorems); only the canonical form 08 01 12 20 || key is decided by the model; agreement of the accept bit with the '
+                     'reference decoder is checked differentially (Ed25519)',
+                     'the reference is libp2p-identity 0.2.14 as linked into the harness (multiaddr::PeerId is the same type); its admission '
+                     'rule is also transcribed as ref_admits. Its `rsa` feature does not build offline (asn1_der missing), so for RSA the '
+                     'reference rule (SHA-256 of 08 00 12 len SubjectPublicKeyInfo) is transcribed from its source and checked on its own '
+                     'test vector in a unit test of the fix',
+                     'multihash 0.19.5, unsigned-varint 0.8.0, bs58 0.5.1, multiaddr 0.18.2 (whose text form uses multibase/base-x, a second '
+                     'base58 implementation: one model, compared differentially) are modelled from their source as read; versions pinned by Cargo.lock',
+                     'tools/gen_c18_sites.py (regex-level skeleton extractor: the places of the crate that make a PeerId from key material); '
+                     'type-directed `.into()` conversions outside functions named to_peer_id are invisible to it',
+                     'signature verification is a boolean parameter of the handshake models; the harness supplies valid signatures'],
+    'level_text': 'Proof: for the executable model of PeerId (multihash bytes = varint code, varint length, digest with the Multihash<64> '
+                  'limit and the unsigned-varint minimal/overflow/truncation rules; admission; derivation from a key encoding; bs58; the '
+                  'binary /p2p component; the textual multiaddress over p2p/ipfs/p2p-circuit; serde in both forms and JSON; the derived '
+                  'Eq/Ord) it is proved that id -> bytes/text/component/textual address/serde/JSON -> id is the identity on every valid id, '
+                  'that every parser and constructor (incl. PeerId::random) yields valid ids (the invariant behind the infallible conversion '
+                  "to multiaddr::PeerId), that litep2p's admission predicate equals the reference's, that every derivation entry point of "
+                  'the crate (from_public_key, both From impls, PublicKey/ed25519/RemotePublicKey::to_peer_id, the local ids, the Noise '
+                  'identity check and the TLS certificate parser) is one function `derive` of the canonical key encoding and independent of '
+                  'the received bytes (C18_single_derivation, with the list of derivation sites extracted from the source on every check and '
+                  'proved equal to the model\'s table), that Ed25519 ids are the identity multihash of 08 01 12 20 || key and injective in '
+                  'the key, RSA ids the SHA-256 multihash of the canonical message, that two valid ids are equal iff their bytes / texts / '
+                  'components are and that the derived Ord is the byte order, that base58 is a bijection, and that accepted inputs are '
+                  'canonical unless a varint uses its 10th byte (a refuted full statement with witness is kept). The model is tied to the '
+                  'Rust code by a three-way differential run.',
+    'level_note': 'Trusted: Coq kernel, ExtrOcamlBasic extraction, harness and hooks; SHA-256, prost, the curve check, X.509 parsing and '
+                  'signature verification enter as parameters/oracles; agreement with the reference implementation is differential testing '
+                  "plus transcribed rules, not a proof about the reference's code. The TLS-certificate and RSA paths exist only under cargo "
+                  'features quic/rsa and are run in the thorough tier (second harness build); in the quick tier they are covered by the '
+                  'derivation-site table only. Textual multiaddresses with protocols other than p2p/ipfs/p2p-circuit are outside the model. '
+                  'Secp256k1 and ECDSA identity keys are rejected by litep2p (UnknownKeyType), so there is no id to compare.',
+    'assumptions': ['bytes are below 256 and texts are ASCII (other inputs are rejected by model and code alike)',
+                    'Multihash<64> values keep the bytes beyond `size` zero (true of wrap and from_bytes; PeerId never truncates) — the '
+                    'derived Ord compares the whole array; exercised by the pair cases'],
+}
